@@ -391,6 +391,22 @@ func init() {
 			t.Edit(n/2-(n/2+1)/2, n/2+(n-n/2+1)/2, letter(v))
 		}
 	})
+	// content outside the basic plane: one character, two UTF-16 units
+	reg("t.insU0", func(r *json.Object, _ *document.Presence, v int) {
+		if t := txt(r); t != nil {
+			t.Edit(0, 0, "\U0001F600"+letter(v))
+		}
+	})
+	reg("t.insUE", func(r *json.Object, _ *document.Presence, v int) {
+		if t := txt(r); t != nil {
+			t.Edit(tlen(t), tlen(t), letter(v)+"\U0001F601")
+		}
+	})
+	reg("t.repAllU", func(r *json.Object, _ *document.Presence, v int) {
+		if t := txt(r); t != nil {
+			t.Edit(0, tlen(t), "\U0001F602"+letter(v)+"\U0001F603")
+		}
+	})
 	reg("t.repAll", func(r *json.Object, _ *document.Presence, v int) {
 		if t := txt(r); t != nil {
 			t.Edit(0, tlen(t), letter(v))
@@ -480,6 +496,25 @@ func init() {
 			r.Delete("c")
 		}
 	})
+
+	// ------------------------------------------------ several operations, one change
+	multi := func(name string, parts ...string) {
+		reg(name, func(r *json.Object, p *document.Presence, v int) {
+			for i, part := range parts {
+				Ops[part].Apply(r, p, v+i)
+			}
+		})
+	}
+	multi("m.o1+a", "o.set1", "a.push")
+	multi("m.o1+o1", "o.set1", "o.set1")
+	multi("m.o1+del1", "o.set1", "o.del1")
+	multi("m.o1+o2", "o.set1", "o.set2")
+	multi("m.t+c", "t.insM", "c.inc1")
+	multi("m.t+t", "t.insM", "t.ins0")
+	multi("m.c+c", "c.inc1", "c.incv")
+	multi("m.a+a", "a.push", "a.ins0")
+	multi("m.a+del", "a.push", "a.del0")
+	multi("m.obj+in", "o.setobj1", "o.setin1")
 
 	// ------------------------------------------------------------ presence
 	reg("p.set1", func(_ *json.Object, p *document.Presence, v int) {
